@@ -27,6 +27,10 @@ type c02Plan struct {
 	DeployMs int `json:"deploy_ms"` // deploy timeout of the redeploys (the drain timeout stays far above every service time)
 	TLSRoot  bool  `json:"tls_root"` // the service sits on a sub-path of a host whose root service has TLS; requests come over TLS
 	Offer    []int `json:"offer"`    // requests (by index) that offer a protocol upgrade the target ignores
+	// TargetTimeoutMs > 0: the service's target timeout (it bounds the wait for response HEADERS only) is this short,
+	// and every request is an event stream whose headers and first event come at once and whose last event comes
+	// after its service time: such requests outlive the target timeout and must still finish within the drain timeout
+	TargetTimeoutMs int `json:"target_timeout_ms,omitempty"`
 }
 
 func c02Gen(t *rapid.T) c02Plan {
@@ -52,6 +56,9 @@ func c02Gen(t *rapid.T) c02Plan {
 	p.Probe = rapid.Bool().Draw(t, "probe")
 	p.DeployMs = rapid.SampledFrom([]int{50, 300, 5000}).Draw(t, "deploy-timeout")
 	p.TLSRoot = rapid.IntRange(0, 3).Draw(t, "tls-root") == 0
+	if rapid.IntRange(0, 4).Draw(t, "target-timeout?") == 0 {
+		p.TargetTimeoutMs = rapid.SampledFrom([]int{5, 20, 100}).Draw(t, "target-timeout")
+	}
 	for i := 0; i < nr; i++ {
 		if rapid.IntRange(0, 4).Draw(t, "offer") == 0 {
 			p.Offer = append(p.Offer, i)
@@ -74,7 +81,7 @@ func c02Run(t *testing.T, p c02Plan) (res vfResult) {
 			w.target("root0:80")
 			ro := ServiceOptions{Hosts: []string{"svc.test"}, TLSEnabled: true, TLSCertificatePath: vfFix.cert, TLSPrivateKeyPath: vfFix.key, TLSRedirect: true}
 			ro.Normalize()
-			if err := r.DeployService("root", []string{"root0:80"}, ro, vfFastTargetOptions(), 5*time.Second, time.Second); err != nil {
+			if err := vfDeploy(r, "root", []string{"root0:80"}, ro, vfFastTargetOptions(), 5*time.Second, time.Second); err != nil {
 				res.failf("setup-failed", "root deploy: %v", err)
 				return
 			}
@@ -83,6 +90,10 @@ func c02Run(t *testing.T, p c02Plan) (res vfResult) {
 		}
 		opts.Normalize()
 		to := vfFastTargetOptions()
+		if p.TargetTimeoutMs > 0 {
+			to.ResponseTimeout = vfMs(p.TargetTimeoutMs)
+			res.label("streams-outliving-the-target-timeout")
+		}
 		to.HealthCheckConfig.Interval = 100 * time.Millisecond // probes complete while drains are in progress
 		w.noteInterval(100 * time.Millisecond)
 		deployTimeout := vfMs(p.DeployMs)
@@ -99,7 +110,7 @@ func c02Run(t *testing.T, p c02Plan) (res vfResult) {
 			}
 		}
 		const drain = 60 * time.Second
-		if err := r.DeployService("svc", sets[0], opts, to, 5*time.Second, drain); err != nil {
+		if err := vfDeploy(r, "svc", sets[0], opts, to, 5*time.Second, drain); err != nil {
 			res.failf("setup-failed", "setup deploy: %v", err)
 			return
 		}
@@ -128,7 +139,7 @@ func c02Run(t *testing.T, p c02Plan) (res vfResult) {
 		}
 		startReq := func(i int) {
 			sc.spawn(reqActor(i), func() {
-				req := vfNewRequest("GET", "svc.test", path, &vfCtl{ID: reqActor(i), DurMs: p.Durs[i]}, nil)
+				req := vfNewRequest("GET", "svc.test", path, &vfCtl{ID: reqActor(i), DurMs: p.Durs[i], SSE: p.TargetTimeoutMs > 0}, nil)
 				if p.TLSRoot {
 					req.TLS = &tls.ConnectionState{}
 				}
@@ -143,7 +154,7 @@ func c02Run(t *testing.T, p c02Plan) (res vfResult) {
 		}
 		startCmd := func(k int) {
 			sc.spawn(cmdActor(k), func() {
-				cmdRes[k] = w.runCmd(func() error { return r.DeployService("svc", sets[k], opts, to, deployTimeout, drain) })
+				cmdRes[k] = w.runCmd(func() error { return vfDeploy(r, "svc", sets[k], opts, to, deployTimeout, drain) })
 			})
 		}
 		nextReq, nextCmd := 0, 1
@@ -292,6 +303,9 @@ func c02Run(t *testing.T, p c02Plan) (res vfResult) {
 			}
 			rp := outs[i]
 			okBody := strings.Contains(string(rp.Body), "\"id\":\""+a+"\"")
+			if p.TargetTimeoutMs > 0 {
+				okBody = strings.Contains(string(rp.Body), "data: second") // the stream ran to its end
+			}
 			if rp.Status == 200 && rp.Target != "" && okBody && vfContains(allowed, rp.Target) {
 				continue
 			}
